@@ -97,6 +97,7 @@ def check_read(case, ctx):
     ctx.label("holds", bool(parsed["holds"]))
     ctx.label("holds:across-measure", any(F(h["beat"]) // 4 != F(h["tail_beat"]) // 4 for h in parsed["holds"]))
     ctx.label("no-lnobj", skel["lnobj"] is None)
+    ctx.label("lnobj-id-has-wav", bool(skel["lnobj"]) and skel["lnobj"] in skel["samples"] and bool(parsed["holds"]))
     ctx.label("lines:repeated-key", repeated)
     ctx.label("lines:unsorted", unsorted_)
     ctx.label("noise", parsed["ignored"] > 0)
